@@ -147,3 +147,14 @@ Theorem C01_signmsg_wire_verifies :
   exists m', unmarshal_signmsg out = Acc m' /\ fst (signmsg_verify m' ext vfs) = Acc tt.
 Proof. exact signmsg_wire_verifies. Qed.
 Print Assumptions C01_signmsg_wire_verifies.
+
+(* countersignatures: a COSE_Countersignature (typed buckets) that verifies against its parent is serialised to bytes the decoder accepts, and the decoded holder verifies against the same parent, for every kind of parent and any verifier *)
+Theorem C01_csig_wire_verifies :
+  forall s bs vf target ext,
+  st_ok s -> marshal_signature (st_sigv s) = Acc bs ->
+  fst (csig_verify (st_sigv s) vf target ext) = Acc tt ->
+  exists item s', bs = ser item /\ wf item = true /\ dec_signature_item item = Acc s' /\
+                  sg_sig s' = Some (st_sig s) /\
+                  fst (csig_verify s' vf target ext) = Acc tt.
+Proof. exact csig_wire_verifies. Qed.
+Print Assumptions C01_csig_wire_verifies.
